@@ -24,6 +24,7 @@ func genIndexed(prop string, seed uint64, run int, stream uint64, uniquePct int,
 	g.colls = []string{"c0"}
 	g.ids = 3 + r.IntN(3)
 	g.wide = 12
+	g.etxn = 8
 	p := &Plan{Prop: prop, Seed: seed, Run: run, Cfg: seqCfg(r)}
 	tp := TaskPlan{Name: "client"}
 	// indexes first or after the data (build over existing documents)
@@ -45,6 +46,10 @@ func genIndexed(prop string, seed uint64, run int, stream uint64, uniquePct int,
 	}
 	if r.IntN(2) == 0 {
 		tp.Ops = append(tp.Ops, ixs...)
+		if r.IntN(8) == 0 {
+			// index definitions of a still empty collection must survive a reopen too
+			tp.Ops = append(tp.Ops, Op{K: "restart"})
+		}
 		tp.Ops = append(tp.Ops, g.seedOps(100)...)
 	} else {
 		tp.Ops = append(tp.Ops, g.seedOps(100)...)
